@@ -26,8 +26,11 @@ def main():
             ok = False
     import tomllib
     members = tomllib.load(open(os.path.join(C.HARNESS, "Cargo.toml"), "rb"))["workspace"]["members"]
+    dirs = []
     for m in members:
-        pkg = tomllib.load(open(os.path.join(C.HARNESS, m, "Cargo.toml"), "rb"))["package"]["name"]
+        dirs += sorted(d for d in glob.glob(os.path.join(C.HARNESS, m)) if os.path.exists(os.path.join(d, "Cargo.toml")))
+    for d in dirs:
+        pkg = tomllib.load(open(os.path.join(d, "Cargo.toml"), "rb"))["package"]["name"]
         g, o, _ = cargotools.build_harness(pkg)
         print("harness", pkg, "ok" if g else "FAILED")
         if not g:
